@@ -328,3 +328,12 @@ Theorem C08_gap_rigid : forall pre post p q a b,
   map m q a - map m p b = q - p.
 Proof. exact map_gap_rigid. Qed.
 Print Assumptions C08_gap_rigid.
+
+(* the inverse of a map sends the NEW boundaries of each of its ranges back to the OLD boundaries *)
+Theorem C08_invert_maps_boundaries_back : forall pre s x y post,
+  wf_ranges 0 pre -> all_before pre s -> 0 <= x -> 0 <= y ->
+  let m := {| ranges := pre ++ (s, x, y) :: post; inverted := false |} in
+  map (invert m) (s + total_diff pre) (-1) = s /\
+  map (invert m) (s + total_diff pre + y) 1 = s + x.
+Proof. exact invert_maps_boundaries_back. Qed.
+Print Assumptions C08_invert_maps_boundaries_back.
